@@ -342,7 +342,10 @@ def confirm(spec, po, label, model):
     if po.witness is None:
         return {'kind': 'harness_error', 'detail': 'refuted obligation %s but harness has no replay' % label}
     try:
-        w = po.witness(model)
+        try:
+            w = po.witness(model, label=label)
+        except TypeError:
+            w = po.witness(model)
     except Exception:
         return {'kind': 'harness_error', 'detail': 'replay crashed: ' + traceback.format_exc()[-800:]}
     bad = w.get('violated')
